@@ -126,6 +126,7 @@ type IterFeatures struct {
 	PrefixFiltered        int
 	SnapshotKeys          int
 	SkippedBackwardSeek   int
+	BackwardSeeks         int
 }
 
 // RunIterSession executes one iterator session against db and the model,
@@ -164,10 +165,31 @@ func RunIterCalls(it IterAPI, m *ModelIter, spec *IterOp, readFresh bool, checkV
 	}
 	didNext := false
 	lastSeek := false
+	free := false // after a backward Seek: unspecified territory until the next Rewind
+	record := func(c string) {
+		if tr == nil {
+			return
+		}
+		if it.Valid() {
+			tr("iter (unspecified) %s -> %x", c, it.Key())
+		} else {
+			tr("iter (unspecified) %s -> end", c)
+		}
+	}
 	for i, c := range spec.Calls {
 		what := fmt.Sprintf("call %d %s", i, c.C)
+		if free && (c.C == "seek" || c.C == "next") {
+			if c.C == "seek" {
+				it.Seek(append([]byte(nil), c.Key...))
+			} else if it.Valid() {
+				it.Next()
+			}
+			record(c.C)
+			continue
+		}
 		switch c.C {
 		case "rewind":
+			free = false
 			it.Rewind()
 			if didNext {
 				feat.RewindAfterNext = true
@@ -185,6 +207,13 @@ func RunIterCalls(it IterAPI, m *ModelIter, spec *IterOp, readFresh bool, checkV
 				m.Rewind()
 			}
 			if !m.Ahead(c.Key) {
+				if spec.Backward && positioned {
+					it.Seek(append([]byte(nil), c.Key...))
+					free = true
+					feat.BackwardSeeks++
+					record("seek")
+					continue
+				}
 				feat.SkippedBackwardSeek++
 				continue
 			}
@@ -301,6 +330,7 @@ func (f *IterFeatures) AddTo(l map[string]int, spec *IterOp) {
 	inc(len(spec.Prefix) > 0 && f.PrefixFiltered > 0, "iter-prefix-filtered-some-key")
 	inc(len(spec.Prefix) > 0 && f.SnapshotKeys == 0, "iter-prefix-matches-nothing")
 	inc(f.SkippedBackwardSeek > 0, "iter-backward-seek-not-issued")
+	inc(f.BackwardSeeks > 0, "iter-backward-seek-issued-unspecified")
 }
 
 // ShardsUsed computes over how many index shards the keys spread (measurement
